@@ -310,6 +310,15 @@ func (m *Machine) sysIntrinsics() {
 			args := append([]*term.Term{seed}, m.hashLogs[dp]...)
 			return m.st.App(fmt.Sprintf("murmur3_32_n%d", len(args)-1), 32, args)
 		},
+		// errors.Is for the error values of this repository (errors.New sentinels, no wrapping):
+		// identity of the dynamic values.  Unwrap chains are not modelled.
+		"errors.Is": func(m *Machine, fr *frame, a []value) value {
+			e, t := a[0].(iface), a[1].(iface)
+			if e.t == nil || t.t == nil {
+				return m.st.Bool(e.t == nil && t.t == nil)
+			}
+			return m.equal(nil, e, t)
+		},
 		"fmt.Sscanf": func(m *Machine, fr *frame, a []value) value {
 			s, format := strArg(a[0]), strArg(a[1])
 			ptrs := a[2].([]value)
